@@ -55,8 +55,8 @@ Theorem C14_decimal_separators : forall pf n ds', 0 < n -> n <= i32_max_N ->
 Proof. exact decimal_roundtrip. Qed.
 Print Assumptions C14_decimal_separators.
 
-(* decimal fractions (partial: digits '.' digits without separators or
-   exponent; [parse_f64] is the model of str::parse::<f64>, tied to the Rust by
+(* decimal fractions (partial: the theorem covers digits '.' digits without
+   separators or exponent; [parse_f64] is the model of str::parse::<f64>, tied to the Rust by
    correspondence): the literal is read as mantissa = all its digits, exponent
    = minus the number of fraction digits ... *)
 Theorem C14_float_literal : forall ip fp,
@@ -67,17 +67,15 @@ Proof. exact float_literal_value. Qed.
 Print Assumptions C14_float_literal.
 
 (* ... and the conversion is the IEEE-754 round-to-nearest-even of the decimal
-   number m * 10^e (an infinity when that rounding overflows), outside the two
-   exponent ranges the model decides without computing the power *)
+   number m * 10^e (an infinity when that rounding overflows), for every
+   mantissa and every exponent *)
 Theorem C14_float_rounding : forall neg p e10,
-  (e10 < 310)%Z ->
-  ~ (10000 * (Z.log2 (Zpos p) + 1) + 33219 * e10 <= -10750000)%Z ->
   let x := dec_real neg p e10 in
   if Rlt_bool (Rabs (rnd64 x)) (bpow radix2 1024) then
     Binary.B2R 53 1024 (f64_of_decimal neg (Npos p) e10) = rnd64 x /\
     Binary.is_finite 53 1024 (f64_of_decimal neg (Npos p) e10) = true
   else f64_of_decimal neg (Npos p) e10 = Binary.B754_infinity 53 1024 neg.
-Proof. exact f64_of_decimal_correct. Qed.
+Proof. exact f64_of_decimal_total. Qed.
 Print Assumptions C14_float_rounding.
 
 (* a char-list literal evaluates to exactly the characters between its quotes
